@@ -20,15 +20,35 @@ import (
 type C19Case struct {
 	Roots string   `json:"roots"`
 	Seq   []string `json:"seq"`
-	Cont  string   `json:"cont"` // v1 v2 v2pad v2noidx dag
+	Cont  string   `json:"cont"` // v1 v2 v2pad v2noidx v2padnoidx
 	Cmd   string   `json:"cmd"`
 	Arg   string   `json:"arg,omitempty"`
+	// Var: comma separated variant tokens: stale=v2|garbage|chain (a file already sits at the output
+	// path), list=messy (CID list shape), target=a|ab|empty|pad|v1 (append target), ver1, inverse.
+	Var string `json:"var,omitempty"`
+	// IO: also run the stdout / stdin forms of the command and compare them with the file forms.
+	IO bool `json:"io,omitempty"`
 }
 
 var c19Cmds = []string{
 	"index:mh", "index:sorted", "index:none", "index:v1", "index-create:mh", "index-create:sorted", "detach", "detach-list",
 	"filter", "filter:inverse", "filter:v1", "filter:append", "filter:all", "filter:none",
 	"get-block", "list", "root", "concat:v1:1", "concat:v1:2", "concat:v1:3", "concat:v2:2", "inspect",
+	"check-input",
+}
+
+// commands that only differ from an enumerated one by flag parsing (no --codec given)
+var c19DefaultCmds = []string{"index:default", "index-create:default"}
+
+// commands with a stdout or stdin form
+var c19IOCmds = []string{
+	"index:mh", "index:sorted", "index:none", "index:v1", "index:default", "index-create:mh", "index-create:sorted", "index-create:default",
+	"detach", "detach-list", "filter", "filter:inverse", "get-block", "list", "root", "concat:v1:2", "concat:v2:2", "inspect",
+}
+
+// commands that write to a path at which a stale file may sit
+var c19StaleCmds = []string{
+	"index:mh", "index:v1", "index:none", "index-create:mh", "detach", "filter", "filter:v1", "filter:inverse", "concat:v1:2", "concat:v2:2",
 }
 
 func cidStr(raw []byte) string {
@@ -39,9 +59,63 @@ func cidStr(raw []byte) string {
 	return c.String()
 }
 
+// c19Var returns the value of a variant token ("" if absent; "1" for a bare token).
+func c19Var(v, key string) string {
+	for _, t := range strings.Split(v, ",") {
+		k, val, has := strings.Cut(t, "=")
+		if k == key {
+			if !has {
+				return "1"
+			}
+			return val
+		}
+	}
+	return ""
+}
+
+// c19Seq expands the block-sequence names of a case ("many150" = 150 distinct small blocks).
+func c19Seq(names []string) []string {
+	var out []string
+	for _, n := range names {
+		if strings.HasPrefix(n, "many") {
+			var k int
+			fmt.Sscanf(n[4:], "%d", &k)
+			out = append(out, kit.ManyNames(k)...)
+			continue
+		}
+		out = append(out, n)
+	}
+	return out
+}
+
+// c19StaleBytes: the content of a file that already sits at an output path.
+func c19StaleBytes(kind string) []byte {
+	switch kind {
+	case "v2":
+		// a valid, longer CARv2 with other roots
+		bl := []refcar.Block{kit.B("c").Ref(), kit.B("e").Ref(), kit.B("b").Ref(), kit.B("L128").Ref(), kit.B("L127").Ref()}
+		p := refcar.EncodeV1([][]byte{kit.B("c").Raw, kit.B("e").Raw}, false, bl)
+		pl, _ := refcar.DecodePayload(p, false, true)
+		return refcar.EncodeV2(p, 0, 0, refcar.EncodeIndex(refcar.CodecMhIndexSorted, refcar.RecordsOf(pl, false)), false)
+	case "garbage":
+		return bytes.Repeat([]byte("this is not an archive. "), 40)
+	}
+	return nil
+}
+
+func c19PutStale(work, file, kind string) {
+	if b := c19StaleBytes(kind); b != nil {
+		os.WriteFile(filepath.Join(work, file), b, 0o644)
+	}
+}
+
 // c19Validate: every produced archive is accepted by car inspect --full and, when its
-// roots are among its blocks, by car verify.
+// roots are among its blocks, by car verify; an embedded index is the index of the payload.
 func c19Validate(x *kit.Ctx, work, file, tag string) {
+	c19ValidateOpt(x, work, file, tag, false)
+}
+
+func c19ValidateOpt(x *kit.Ctx, work, file, tag string, verifyOutcomeOnly bool) {
 	b, err := os.ReadFile(filepath.Join(work, file))
 	if err != nil {
 		x.Fail("c19:no-output:"+tag, "command produced no output file %s", file)
@@ -59,14 +133,24 @@ func c19Validate(x *kit.Ctx, work, file, tag string) {
 			// keep the rest of the oracle: plain inspect must accept
 			if r2 := drv.Car(work, nil, "inspect", file); r2.Exit != 0 {
 				x.Fail("c19:inspect-rejects:"+tag, "car inspect rejects the output: %s", clipS(string(r2.Stderr), 300))
+			} else {
+				c19InspectReport(x, tag, string(r2.Stdout), b)
 			}
 		} else {
 			x.Fail("c19:inspect-full-rejects:"+tag, "car inspect --full rejects the output (reference decode: %v): %s", derr, clipS(msg, 300))
 		}
+	} else {
+		c19InspectReport(x, tag, string(r.Stdout), b)
 	}
 	if derr != nil {
 		x.Fail("c19:output-malformed:"+tag, "output is not a well-formed archive: %v", derr)
 		return
+	}
+	if fl.Version == 2 && fl.HasIndex {
+		got := recMultiset(fl.IndexCodec, fl.Index)
+		if got != recMultiset(fl.IndexCodec, refcar.RecordsOf(fl.Payload, false)) && got != recMultiset(fl.IndexCodec, refcar.RecordsOf(fl.Payload, true)) {
+			x.Fail("c19:output-index:"+tag, "embedded index {%s} is not the index of the payload it follows (with or without identity entries)", clipS(got, 400))
+		}
 	}
 	roots := fl.Payload.Header.Roots
 	if len(roots) == 0 {
@@ -86,7 +170,92 @@ func c19Validate(x *kit.Ctx, work, file, tag string) {
 	v := drv.Car(work, nil, "verify", file)
 	x.Eval(1)
 	if v.Exit != 0 {
+		if verifyOutcomeOnly {
+			x.Outcome("verify-rejects:" + tag)
+			return
+		}
 		x.Fail("c19:verify-rejects:"+tag, "car verify rejects an output whose roots are all stored: %s", clipS(string(v.Stderr), 300))
+	} else {
+		x.Outcome("verified")
+	}
+}
+
+// c19InspectReport compares the semantic fields of an inspect report with the reference decode
+// of the inspected bytes: version, payload window, index offset and type, roots, presence of the
+// roots, block count. (The statistics lines and the layout are not judged.)
+func c19InspectReport(x *kit.Ctx, tag, stdout string, file []byte) {
+	fl, err := refcar.DecodeFile(file, true)
+	if err != nil {
+		return
+	}
+	fields := map[string]string{}
+	var roots []string
+	lines := strings.Split(stdout, "\n")
+	for i := 0; i < len(lines); i++ {
+		k, v, ok := strings.Cut(lines[i], ":")
+		if !ok || strings.HasPrefix(lines[i], "\t") {
+			continue
+		}
+		v = strings.TrimSpace(v)
+		if k == "Roots" {
+			if v != "" && v != "(none)" {
+				roots = append(roots, v)
+			}
+			for i+1 < len(lines) && strings.HasPrefix(lines[i+1], "\t") {
+				i++
+				roots = append(roots, strings.TrimSpace(lines[i]))
+			}
+			continue
+		}
+		fields[k] = v
+	}
+	want := map[string]string{
+		"Version":     fmt.Sprint(fl.Version),
+		"Block count": fmt.Sprint(len(fl.Payload.Sections)),
+	}
+	present := "Yes"
+	for _, rt := range fl.Payload.Header.Roots {
+		found := false
+		for _, s := range fl.Payload.Sections {
+			if bytes.Equal(s.Cid, rt) {
+				found = true
+			}
+		}
+		if !found {
+			present = "No"
+		}
+	}
+	want["Root blocks present in data"] = present
+	if fl.Version == 2 {
+		want["Characteristics"] = fmt.Sprintf("%x", file[refcar.PragmaSize:refcar.PragmaSize+16])
+		want["Data offset"] = fmt.Sprint(fl.V2.DataOffset)
+		want["Data (payload) length"] = fmt.Sprint(fl.V2.DataSize)
+		want["Index offset"] = fmt.Sprint(fl.V2.IndexOffset)
+		switch {
+		case !fl.HasIndex:
+			want["Index type"] = "(none)"
+		case fl.IndexCodec == refcar.CodecIndexSorted:
+			want["Index type"] = "car-index-sorted"
+		case fl.IndexCodec == refcar.CodecMhIndexSorted:
+			want["Index type"] = "car-multihash-index-sorted"
+		}
+	}
+	var keys []string
+	for k := range want {
+		keys = append(keys, k)
+	}
+	sort.Strings(keys)
+	for _, k := range keys {
+		if fields[k] != want[k] {
+			x.Fail("c19:inspect-report:"+tag, "car inspect reports %q = %q, the archive has %q", k, fields[k], want[k])
+		}
+	}
+	var wantRoots []string
+	for _, rt := range fl.Payload.Header.Roots {
+		wantRoots = append(wantRoots, cidStr(rt))
+	}
+	if strings.Join(roots, ",") != strings.Join(wantRoots, ",") {
+		x.Fail("c19:inspect-report:"+tag, "car inspect reports roots %v, the archive has %v", roots, wantRoots)
 	}
 }
 
@@ -98,467 +267,688 @@ func c19Blocks(fl *refcar.File) []refcar.Block {
 	return out
 }
 
+// c19Env is one case's scratch directory, input archive and its reference decode.
+type c19Env struct {
+	x        *kit.Ctx
+	cs       C19Case
+	work     string
+	tag      string
+	in       []byte
+	payload  []byte
+	pl       *refcar.Payload
+	rootRaws [][]byte
+	blks     []kit.Blk
+	rb       []refcar.Block
+}
+
+func (e *c19Env) run(stdin []byte, args ...string) drv.RunResult {
+	e.x.Eval(1)
+	return drv.Car(e.work, stdin, args...)
+}
+
+func (e *c19Env) path(f string) string { return filepath.Join(e.work, f) }
+
+func (e *c19Env) stale(file string) { c19PutStale(e.work, file, c19Var(e.cs.Var, "stale")) }
+
+func c19Container(cont string, payload []byte, pl *refcar.Payload) []byte {
+	switch cont {
+	case "v1":
+		return payload
+	case "v2":
+		return refcar.EncodeV2(payload, 0, 0, refcar.EncodeIndex(refcar.CodecMhIndexSorted, refcar.RecordsOf(pl, false)), false)
+	case "v2pad":
+		return refcar.EncodeV2(payload, 3, 2, refcar.EncodeIndex(refcar.CodecIndexSorted, refcar.RecordsOf(pl, false)), false)
+	case "v2noidx":
+		return refcar.EncodeV2(payload, 0, 0, nil, false)
+	case "v2padnoidx":
+		return refcar.EncodeV2(payload, 3, 0, nil, false)
+	}
+	panic("unknown container " + cont)
+}
+
 func runC19(c any, x *kit.Ctx) {
 	cs := c.(C19Case)
 	work := filepath.Join(x.Dir, "c19")
 	os.RemoveAll(work)
 	os.MkdirAll(work, 0o755)
 	defer os.RemoveAll(work)
-	_, rootRaws, _ := kit.Roots(cs.Roots)
-	blks := kit.Bs(cs.Seq)
-	var rb []refcar.Block
-	for _, b := range blks {
-		rb = append(rb, b.Ref())
+	e := &c19Env{x: x, cs: cs, work: work, tag: cs.Cmd}
+	_, e.rootRaws, _ = kit.Roots(cs.Roots)
+	e.blks = kit.Bs(c19Seq(cs.Seq))
+	for _, b := range e.blks {
+		e.rb = append(e.rb, b.Ref())
 	}
-	payload := refcar.EncodeV1(rootRaws, false, rb)
-	pl, _ := refcar.DecodePayload(payload, false, true)
-	var in []byte
-	switch cs.Cont {
-	case "v1":
-		in = payload
-	case "v2":
-		in = refcar.EncodeV2(payload, 0, 0, refcar.EncodeIndex(refcar.CodecMhIndexSorted, refcar.RecordsOf(pl, false)), false)
-	case "v2pad":
-		in = refcar.EncodeV2(payload, 3, 2, refcar.EncodeIndex(refcar.CodecIndexSorted, refcar.RecordsOf(pl, false)), false)
-	case "v2noidx":
-		in = refcar.EncodeV2(payload, 0, 0, nil, false)
-	}
-	os.WriteFile(filepath.Join(work, "in.car"), in, 0o644)
-	tag := cs.Cmd
+	e.payload = refcar.EncodeV1(e.rootRaws, false, e.rb)
+	e.pl, _ = refcar.DecodePayload(e.payload, false, true)
+	e.in = c19Container(cs.Cont, e.payload, e.pl)
+	os.WriteFile(e.path("in.car"), e.in, 0o644)
 	x.Eval(1)
 	x.Transition(1)
-	run := func(stdin []byte, args ...string) drv.RunResult { return drv.Car(work, stdin, args...) }
 	cmd, arg, _ := strings.Cut(cs.Cmd, ":")
 	switch cmd {
 	case "index":
-		var r drv.RunResult
-		switch arg {
-		case "v1":
-			r = run(nil, "index", "--version", "1", "in.car", "out.car")
-		case "none":
-			r = run(nil, "index", "--codec", "none", "in.car", "out.car")
-		case "mh":
-			r = run(nil, "index", "--codec", "car-multihash-index-sorted", "in.car", "out.car")
-		case "sorted":
-			r = run(nil, "index", "--codec", "car-index-sorted", "in.car", "out.car")
-		}
-		if r.Exit != 0 {
-			x.Fail("c19:cmd-failed:"+tag, "car index failed on a valid archive: %s", clipS(string(r.Stderr), 300))
-			return
-		}
-		c19Validate(x, work, "out.car", tag)
-		out, _ := os.ReadFile(filepath.Join(work, "out.car"))
-		fl, err := refcar.DecodeFile(out, false)
-		if err != nil {
-			return
-		}
-		if !bytes.Equal(fl.PayloadRaw, payload) {
-			x.Fail("c19:index-payload:"+tag, "car index changed the payload")
-		}
-		switch arg {
-		case "v1":
-			if fl.Version != 1 {
-				x.Fail("c19:index-version:"+tag, "index --version 1 produced version %d", fl.Version)
-			}
-		case "none":
-			if fl.Version != 2 || fl.HasIndex {
-				x.Fail("c19:index-none:"+tag, "index --codec none: version %d hasIndex %v", fl.Version, fl.HasIndex)
-			}
-		default:
-			if fl.Version != 2 || !fl.HasIndex {
-				x.Fail("c19:index-missing:"+tag, "no index in output")
-				return
-			}
-			got := recMultiset(fl.IndexCodec, fl.Index)
-			if got != recMultiset(fl.IndexCodec, refcar.RecordsOf(pl, false)) && got != recMultiset(fl.IndexCodec, refcar.RecordsOf(pl, true)) {
-				x.Fail("c19:index-records:"+tag, "index {%s} is not the index of the payload (with or without identity entries)", got)
-			}
-		}
+		e.index(arg)
 	case "index-create":
-		codec := "car-multihash-index-sorted"
-		if arg == "sorted" {
-			codec = "car-index-sorted"
-		}
-		r := run(nil, "index", "--codec", codec, "create", "in.car", "out.idx")
-		if r.Exit != 0 {
-			x.Fail("c19:cmd-failed:"+tag, "car index create failed: %s", clipS(string(r.Stderr), 300))
-			return
-		}
-		out, _ := os.ReadFile(filepath.Join(work, "out.idx"))
-		cn, recs, err := refcar.DecodeIndex(out)
-		if err != nil {
-			x.Fail("c19:detached-index-malformed:"+tag, "detached index malformed: %v", err)
-			return
-		}
-		got := recMultiset(cn, recs)
-		if got != recMultiset(cn, refcar.RecordsOf(pl, false)) && got != recMultiset(cn, refcar.RecordsOf(pl, true)) {
-			x.Fail("c19:detached-index-records:"+tag, "detached index {%s} is not the index of the payload", got)
-		}
+		e.indexCreate(arg)
 	case "detach", "detach-list":
-		r := run(nil, "detach-index", "in.car", "out.idx")
-		hasIdx := cs.Cont == "v2" || cs.Cont == "v2pad"
-		if !hasIdx {
-			if r.Exit == 0 {
-				x.Fail("c19:detach-no-index:"+tag, "detach-index succeeded on an archive without index")
-			}
-			x.Outcome("refused")
-			return
-		}
-		if r.Exit != 0 {
-			x.Fail("c19:cmd-failed:"+tag, "detach-index failed: %s", clipS(string(r.Stderr), 300))
-			return
-		}
-		out, _ := os.ReadFile(filepath.Join(work, "out.idx"))
-		fin, _ := refcar.DecodeFile(in, false)
-		if !bytes.Equal(out, fin.IndexRaw) {
-			x.Fail("c19:detach-bytes:"+tag, "detached index differs from the embedded index bytes")
-		}
-		if cmd == "detach-list" {
-			l := run(nil, "detach-index", "list", "out.idx")
-			if cs.Cont == "v2pad" { // car-index-sorted is not iterable: refusal expected
-				if l.Exit == 0 {
-					x.Fail("c19:detach-list-sorted:"+tag, "listing a digest-only index succeeded")
-				}
-				return
-			}
-			var want []string
-			for _, rec := range fin.Index {
-				mh, _ := multihash.Encode(rec.Digest, rec.MhCode)
-				want = append(want, fmt.Sprintf("%s %d", multihash.Multihash(mh).String(), rec.Offset))
-			}
-			got := strings.Split(strings.TrimSpace(string(l.Stdout)), "\n")
-			if len(want) == 0 {
-				got = nil
-				if strings.TrimSpace(string(l.Stdout)) != "" {
-					got = []string{string(l.Stdout)}
-				}
-			}
-			sort.Strings(want)
-			sort.Strings(got)
-			if l.Exit != 0 || strings.Join(got, "|") != strings.Join(want, "|") {
-				x.Fail("c19:detach-list:"+tag, "detach-index list prints %v (exit %d) want %v", got, l.Exit, want)
-			}
-		}
+		e.detach(cmd)
 	case "filter":
-		// selection: by argument
-		var sel [][]byte
-		switch arg {
-		case "all":
-			for _, b := range blks {
-				sel = append(sel, b.Raw)
-			}
-		case "none":
-		default:
-			for i, b := range blks {
-				if i%2 == 0 {
-					sel = append(sel, b.Raw)
-				}
-			}
-			sel = append(sel, kit.Absent.Raw)
-		}
-		var lines []string
-		selected := map[string]bool{}
-		for _, s := range sel {
-			lines = append(lines, cidStr(s))
-			selected[string(s)] = true
-		}
-		os.WriteFile(filepath.Join(work, "cids.txt"), []byte(strings.Join(lines, "\n")+"\n"), 0o644)
-		args := []string{"filter", "--cid-file", "cids.txt"}
-		inverse := arg == "inverse"
-		if inverse {
-			args = append(args, "--inverse")
-		}
-		v1 := arg == "v1"
-		if v1 {
-			args = append(args, "--version", "1")
-		}
-		var preBlocks []refcar.Block
-		var preRoots [][]byte
-		if arg == "append" {
-			// an existing CARv2 to append to
-			pre := refcar.EncodeV1([][]byte{kit.B("c").Raw}, false, []refcar.Block{kit.B("c").Ref()})
-			ppl, _ := refcar.DecodePayload(pre, false, true)
-			os.WriteFile(filepath.Join(work, "out.car"), refcar.EncodeV2(pre, 0, 0, refcar.EncodeIndex(refcar.CodecMhIndexSorted, refcar.RecordsOf(ppl, false)), false), 0o644)
-			preBlocks = []refcar.Block{kit.B("c").Ref()}
-			preRoots = [][]byte{kit.B("c").Raw}
-			args = append(args, "--append")
-		}
-		args = append(args, "in.car", "out.car")
-		r := run(nil, args...)
-		if r.Exit != 0 {
-			x.Fail("c19:cmd-failed:"+tag, "car filter failed: %s", clipS(string(r.Stderr), 300))
-			return
-		}
-		c19Validate(x, work, "out.car", tag)
-		out, _ := os.ReadFile(filepath.Join(work, "out.car"))
-		fl, err := refcar.DecodeFile(out, false)
-		if err != nil {
-			return
-		}
-		// the library's answer: selected blocks in source order through the blockstore's documented rules
-		m := &model.Map{}
-		for _, b := range preBlocks {
-			m.Stored = append(m.Stored, kit.Blk{Raw: b.Cid, Data: b.Data})
-		}
-		for _, b := range blks {
-			if selected[string(b.Raw)] != inverse {
-				m.Put(b)
-			}
-		}
-		if d := sameBlocks(c19Blocks(fl), m.RefBlocks(), true); d != "" {
-			x.Fail("c19:filter-blocks:"+tag, "filter output blocks differ from the selected blocks in source order: %s", d)
-		}
-		var wantRoots [][]byte
-		if arg == "append" {
-			wantRoots = preRoots
-		} else {
-			for _, rt := range rootRaws {
-				if selected[string(rt)] != inverse {
-					wantRoots = append(wantRoots, rt)
-				}
-			}
-		}
-		if !sameRoots(fl.Payload.Header.Roots, wantRoots) && !(len(wantRoots) == 0 && len(fl.Payload.Header.Roots) == 0) {
-			x.Fail("c19:filter-roots:"+tag, "filter output roots %x want %x", fl.Payload.Header.Roots, wantRoots)
-		}
-		if v1 != (fl.Version == 1) {
-			x.Fail("c19:filter-version:"+tag, "filter output version %d", fl.Version)
-		}
+		e.filter(arg)
 	case "get-block":
-		for _, q := range append(append([]kit.Blk{}, blks...), kit.Absent, kit.B("b")) {
-			r := run(nil, "get-block", "in.car", cidStr(q.Raw), "blk.bin")
-			x.Eval(1)
-			present := false
-			for _, b := range blks {
-				if bytes.Equal(multihashBytes(b.Raw), multihashBytes(q.Raw)) {
-					present = true
-				}
-			}
-			ident := model.IsIdentity(q.Raw)
-			if present || ident {
-				got, _ := os.ReadFile(filepath.Join(work, "blk.bin"))
-				if r.Exit != 0 || !bytes.Equal(got, q.Data) {
-					x.Fail("c19:get-block:"+tag, "get-block %s: exit %d, %d bytes, want the block's %d bytes", q.Name, r.Exit, len(got), len(q.Data))
-				}
-			} else if r.Exit == 0 {
-				x.Fail("c19:get-block-absent:"+tag, "get-block of an absent CID succeeded")
-			}
-			os.Remove(filepath.Join(work, "blk.bin"))
-		}
+		e.getBlock()
 	case "list":
-		r := run(nil, "list", "in.car")
-		var want []string
-		for _, b := range blks {
-			want = append(want, cidStr(b.Raw))
-		}
-		got := strings.Fields(string(r.Stdout))
-		if r.Exit != 0 || strings.Join(got, ",") != strings.Join(want, ",") {
-			x.Fail("c19:list:"+tag, "car list prints %v (exit %d) want scan order %v", got, r.Exit, want)
-		}
-		// and from stdin
-		r2 := run(in, "list")
-		if r2.Exit != 0 || string(r2.Stdout) != string(r.Stdout) {
-			x.Fail("c19:list-stdin:"+tag, "car list from stdin differs (exit %d): %s", r2.Exit, clipS(string(r2.Stderr), 200))
-		}
+		e.list()
 	case "root":
-		r := run(nil, "root", "in.car")
-		var want []string
-		for _, rt := range rootRaws {
-			want = append(want, cidStr(rt))
-		}
-		got := strings.Fields(string(r.Stdout))
-		if r.Exit != 0 || strings.Join(got, ",") != strings.Join(want, ",") {
-			x.Fail("c19:root:"+tag, "car root prints %v (exit %d) want %v", got, r.Exit, want)
-		}
+		e.root()
 	case "inspect":
-		r := run(nil, "inspect", "in.car")
-		if r.Exit != 0 {
-			x.Fail("c19:inspect-input:"+tag, "car inspect rejects a valid input: %s", clipS(string(r.Stderr), 200))
-		} else if !strings.Contains(string(r.Stdout), fmt.Sprintf("Block count: %d\n", len(blks))) {
-			x.Fail("c19:inspect-count:"+tag, "car inspect block count wrong: %s", clipS(string(r.Stdout), 300))
-		}
+		e.inspect()
 	case "concat":
-		parts := strings.Split(arg, ":")
-		ver, n := parts[0], int(parts[1][0]-'0')
-		// further inputs: the same content in another container, and a third fixed archive
-		second := refcar.EncodeV2(payload, 5, 0, nil, false)
-		os.WriteFile(filepath.Join(work, "in2.car"), second, 0o644)
-		third := refcar.EncodeV1([][]byte{kit.B("c").Raw}, false, []refcar.Block{kit.B("c").Ref(), kit.B("e").Ref()})
-		os.WriteFile(filepath.Join(work, "in3.car"), third, 0o644)
-		args := []string{"concat", "-o", "out.car"}
-		if ver == "v1" {
-			args = append(args, "--version", "1")
-		} else {
-			args = append(args, "--version", "2")
-		}
-		inputs := []string{"in.car", "in2.car", "in3.car"}[:n]
-		args = append(args, inputs...)
-		r := run(nil, args...)
-		if len(rootRaws) == 0 {
-			x.Outcome("concat-rootless-input") // the legacy reader used by concat refuses root-less inputs (documented)
-			return
-		}
-		if r.Exit != 0 {
-			x.Fail("c19:cmd-failed:"+tag, "car concat failed: %s", clipS(string(r.Stderr), 300))
-			return
-		}
-		want := append([]refcar.Block{}, rb...)
-		if n >= 2 {
-			want = append(want, rb...)
-		}
-		if n >= 3 {
-			want = append(want, kit.B("c").Ref(), kit.B("e").Ref())
-		}
-		out, _ := os.ReadFile(filepath.Join(work, "out.car"))
-		fl, err := refcar.DecodeFile(out, false)
-		if err != nil {
-			x.Fail("c19:concat-"+ver+":output-malformed", "concat --version %s output is not a well-formed archive: %v", strings.TrimPrefix(ver, "v"), err)
-			return
-		}
-		c19Validate(x, work, "out.car", tag)
-		if d := sameBlocks(c19Blocks(fl), want, true); d != "" {
-			x.Fail("c19:concat-blocks:"+tag, "concat output is not the concatenation of the inputs' blocks: %s", d)
-		}
-		if !sameRoots(fl.Payload.Header.Roots, rootRaws) {
-			x.Fail("c19:concat-roots:"+tag, "concat output roots differ from the first input's")
-		}
+		e.concat(arg)
+	case "check-input":
+		// the acceptors on the generated inputs themselves (positive control of the two verifiers
+		// on containers no sub-command emits, e.g. padded ones)
+		c19ValidateOpt(x, work, "in.car", e.tag, cs.Cont == "v2padnoidx")
+	case "flags":
+		e.flags()
+	case "controls":
+		e.controls()
+	}
+	// no sub-command may touch its input
+	if now, err := os.ReadFile(e.path("in.car")); err != nil || !bytes.Equal(now, e.in) {
+		x.Fail("c19:input-modified:"+e.tag, "the input archive was modified by the command (read error %v, %d bytes now, %d before)", err, len(now), len(e.in))
 	}
 	x.State(fmt.Sprintf("%+v", cs))
 	x.Outcome(cmd)
-	if len(blks) >= 1 {
+	if len(e.blks) >= 1 {
 		x.Nontrivial(fmt.Sprintf("%+v", cs))
 	}
 }
 
-// ---- get-dag on a UnixFS DAG -------------------------------------------------
-
-type C19DagCase struct{}
-
-func runC19Dag(x *kit.Ctx, cs C19Case) {
-	work := filepath.Join(x.Dir, "c19")
-	os.RemoveAll(work)
-	os.MkdirAll(work, 0o755)
-	defer os.RemoveAll(work)
-	b := &ufsBuilder{}
-	f1 := b.file([]byte("file one"))
-	f2 := b.file([]byte("file two"))
-	sub := b.dir([]pbLink{{Name: "x", Cid: f1, Size: 8}, {Name: "y", Cid: f2, Size: 8}})
-	root := b.dir([]pbLink{{Name: "again", Cid: f1, Size: 8}, {Name: "sub", Cid: sub, Size: 30}})
-	other := b.file([]byte("unrelated"))
-	all := b.blocks
-	var payload []byte
-	switch cs.Arg {
-	case "root-first":
-		var l []refcar.Block
-		for i := len(all) - 1; i >= 0; i-- {
-			l = append(l, all[i])
+func (e *c19Env) index(arg string) {
+	x, tag := e.x, e.tag
+	var args []string
+	var wantCodec uint64
+	switch arg {
+	case "v1":
+		args = []string{"index", "--version", "1"}
+	case "none":
+		args = []string{"index", "--codec", "none"}
+	case "mh":
+		args = []string{"index", "--codec", "car-multihash-index-sorted"}
+		wantCodec = refcar.CodecMhIndexSorted
+	case "sorted":
+		args = []string{"index", "--codec", "car-index-sorted"}
+		wantCodec = refcar.CodecIndexSorted
+	case "default":
+		args = []string{"index"}
+		wantCodec = refcar.CodecMhIndexSorted // the documented default of --codec
+	}
+	e.stale("out.car")
+	r := e.run(nil, append(append([]string{}, args...), "in.car", "out.car")...)
+	if r.Exit != 0 {
+		x.Fail("c19:cmd-failed:"+tag, "car index failed on a valid archive: %s", clipS(string(r.Stderr), 300))
+		return
+	}
+	c19Validate(x, e.work, "out.car", tag)
+	out, _ := os.ReadFile(e.path("out.car"))
+	if e.cs.IO {
+		r2 := e.run(nil, append(append([]string{}, args...), "in.car")...)
+		if r2.Exit != 0 || !bytes.Equal(r2.Stdout, out) {
+			x.Fail("c19:stdout-form:"+tag, "car index to stdout (exit %d, %d bytes) differs from the file output (%d bytes): %s", r2.Exit, len(r2.Stdout), len(out), clipS(string(r2.Stderr), 200))
 		}
-		payload = refcar.EncodeV1([][]byte{root}, false, l)
+	}
+	fl, err := refcar.DecodeFile(out, false)
+	if err != nil {
+		return
+	}
+	if !bytes.Equal(fl.PayloadRaw, e.payload) {
+		x.Fail("c19:index-payload:"+tag, "car index changed the payload")
+	}
+	switch arg {
+	case "v1":
+		if fl.Version != 1 {
+			x.Fail("c19:index-version:"+tag, "index --version 1 produced version %d", fl.Version)
+		}
+	case "none":
+		if fl.Version != 2 || fl.HasIndex {
+			x.Fail("c19:index-none:"+tag, "index --codec none: version %d hasIndex %v", fl.Version, fl.HasIndex)
+		}
 	default:
-		payload = refcar.EncodeV1([][]byte{root}, false, all)
-	}
-	in := payload
-	if cs.Cont == "v2" {
-		pl, _ := refcar.DecodePayload(payload, false, true)
-		in = refcar.EncodeV2(payload, 0, 0, refcar.EncodeIndex(refcar.CodecMhIndexSorted, refcar.RecordsOf(pl, false)), false)
-	}
-	os.WriteFile(filepath.Join(work, "in.car"), in, 0o644)
-	_ = other
-	reach := map[string][][]byte{
-		cidStr(root): {root, f1, sub, f2},
-		cidStr(sub):  {sub, f1, f2},
-		cidStr(f1):   {f1},
-	}
-	for _, ver := range []string{"1", "2"} {
-		for _, start := range [][]byte{nil, root, sub, f1} {
-			args := []string{"get-dag", "--version", ver, "in.car"}
-			want := reach[cidStr(root)]
-			wantRoot := root
-			if start != nil {
-				args = append(args, cidStr(start))
-				want = reach[cidStr(start)]
-				wantRoot = start
-			}
-			args = append(args, "out.car")
-			os.Remove(filepath.Join(work, "out.car"))
-			r := drv.Car(work, nil, args...)
-			x.Eval(1)
-			tag := "get-dag:v" + ver
-			if r.Exit != 0 {
-				x.Fail("c19:cmd-failed:"+tag, "car get-dag failed: %s", clipS(string(r.Stderr), 300))
-				continue
-			}
-			c19Validate(x, work, "out.car", tag)
-			out, _ := os.ReadFile(filepath.Join(work, "out.car"))
-			fl, err := refcar.DecodeFile(out, false)
-			if err != nil {
-				continue
-			}
-			var got [][]byte
-			for _, s := range fl.Payload.Sections {
-				got = append(got, s.Cid)
-			}
-			if !sameRoots(got, want) {
-				x.Fail("c19:get-dag-blocks:"+tag, "get-dag output blocks %x want the DAG in first-visit order %x", got, want)
-			}
-			if !sameRoots(fl.Payload.Header.Roots, [][]byte{wantRoot}) {
-				x.Fail("c19:get-dag-root:"+tag, "get-dag output root wrong")
-			}
-			x.Nontrivial(fmt.Sprintf("dag|%s|%s|%x", cs.Cont, ver, start))
+		if fl.Version != 2 || !fl.HasIndex {
+			x.Fail("c19:index-missing:"+tag, "no index in output")
+			return
+		}
+		if fl.IndexCodec != wantCodec {
+			x.Fail("c19:index-codec:"+tag, "index codec 0x%x in the output, 0x%x requested", fl.IndexCodec, wantCodec)
+		}
+		got := recMultiset(fl.IndexCodec, fl.Index)
+		if got != recMultiset(fl.IndexCodec, refcar.RecordsOf(e.pl, false)) && got != recMultiset(fl.IndexCodec, refcar.RecordsOf(e.pl, true)) {
+			x.Fail("c19:index-records:"+tag, "index {%s} is not the index of the payload (with or without identity entries)", clipS(got, 400))
 		}
 	}
-	x.State(fmt.Sprintf("%+v", cs))
-	x.Outcome("get-dag")
 }
 
-func genC19(tier string, emit func(any)) {
-	names := []string{"a", "b", "a'", "i", "s", "e"}
-	maxLen := 2
-	if tier == "thorough" {
-		names = append(names, "a0", "t", "k")
-		maxLen = 2
+func (e *c19Env) indexCreate(arg string) {
+	x, tag := e.x, e.tag
+	args := []string{"index"}
+	wantCodec := uint64(refcar.CodecMhIndexSorted)
+	switch arg {
+	case "sorted":
+		args = append(args, "--codec", "car-index-sorted")
+		wantCodec = refcar.CodecIndexSorted
+	case "mh":
+		args = append(args, "--codec", "car-multihash-index-sorted")
 	}
-	var seqs [][]string
-	kit.Seqs(names, maxLen, func(s []string) { seqs = append(seqs, s) })
-	seqs = append(seqs, []string{"a", "b", "a", "s"}, []string{"L128", "a"})
-	for _, sq := range seqs {
-		for _, rs := range []string{"a", "ab", "empty"} {
-			if rs != "a" && len(sq) == 2 && tier != "thorough" {
-				continue
-			}
-			for _, cont := range []string{"v1", "v2", "v2pad", "v2noidx"} {
-				for _, cmd := range c19Cmds {
-					emit(C19Case{Roots: rs, Seq: sq, Cont: cont, Cmd: cmd})
+	args = append(args, "create", "in.car")
+	e.stale("out.idx")
+	r := e.run(nil, append(append([]string{}, args...), "out.idx")...)
+	if r.Exit != 0 {
+		x.Fail("c19:cmd-failed:"+tag, "car index create failed: %s", clipS(string(r.Stderr), 300))
+		return
+	}
+	out, _ := os.ReadFile(e.path("out.idx"))
+	if e.cs.IO {
+		r2 := e.run(nil, args...)
+		if r2.Exit != 0 || !bytes.Equal(r2.Stdout, out) {
+			x.Fail("c19:stdout-form:"+tag, "car index create to stdout (exit %d, %d bytes) differs from the file output (%d bytes)", r2.Exit, len(r2.Stdout), len(out))
+		}
+	}
+	cn, recs, err := refcar.DecodeIndex(out)
+	if err != nil {
+		x.Fail("c19:detached-index-malformed:"+tag, "detached index malformed: %v", err)
+		return
+	}
+	if cn != wantCodec {
+		x.Fail("c19:detached-index-codec:"+tag, "detached index has codec 0x%x, 0x%x requested", cn, wantCodec)
+	}
+	got := recMultiset(cn, recs)
+	if got != recMultiset(cn, refcar.RecordsOf(e.pl, false)) && got != recMultiset(cn, refcar.RecordsOf(e.pl, true)) {
+		x.Fail("c19:detached-index-records:"+tag, "detached index {%s} is not the index of the payload", clipS(got, 400))
+	}
+}
+
+func (e *c19Env) detach(cmd string) {
+	x, tag, cs := e.x, e.tag, e.cs
+	e.stale("out.idx")
+	r := e.run(nil, "detach-index", "in.car", "out.idx")
+	hasIdx := cs.Cont == "v2" || cs.Cont == "v2pad"
+	if !hasIdx {
+		if r.Exit == 0 {
+			x.Fail("c19:detach-no-index:"+tag, "detach-index succeeded on an archive without index")
+		}
+		x.Outcome("refused")
+		return
+	}
+	if r.Exit != 0 {
+		x.Fail("c19:cmd-failed:"+tag, "detach-index failed: %s", clipS(string(r.Stderr), 300))
+		return
+	}
+	out, _ := os.ReadFile(e.path("out.idx"))
+	fin, _ := refcar.DecodeFile(e.in, false)
+	if !bytes.Equal(out, fin.IndexRaw) {
+		x.Fail("c19:detach-bytes:"+tag, "detached index differs from the embedded index bytes")
+	}
+	if cs.IO && cmd == "detach" {
+		r2 := e.run(nil, "detach-index", "in.car")
+		if r2.Exit != 0 || !bytes.Equal(r2.Stdout, fin.IndexRaw) {
+			x.Fail("c19:stdout-form:"+tag, "detach-index to stdout (exit %d, %d bytes) differs from the embedded index (%d bytes)", r2.Exit, len(r2.Stdout), len(fin.IndexRaw))
+		}
+	}
+	if cmd == "detach-list" {
+		l := e.run(nil, "detach-index", "list", "out.idx")
+		if cs.IO {
+			// the index on stdin: through a pipe and redirected from the file
+			l2 := e.run(out, "detach-index", "list")
+			l3 := drv.CarStdinFile(e.work, "out.idx", "detach-index", "list")
+			x.Eval(1)
+			for i, o := range []drv.RunResult{l2, l3} {
+				if (o.Exit == 0) != (l.Exit == 0) || !bytes.Equal(o.Stdout, l.Stdout) {
+					x.Fail("c19:stdin-form:"+tag, "detach-index list from stdin (%s; exit %d) differs from the file form (exit %d): %s", []string{"pipe", "file"}[i], o.Exit, l.Exit, clipS(string(o.Stderr), 200))
 				}
 			}
 		}
-	}
-	for _, cont := range []string{"v1", "v2"} {
-		for _, arg := range []string{"", "root-first"} {
-			emit(C19Case{Cont: cont, Cmd: "get-dag", Arg: arg})
+		if cs.Cont == "v2pad" { // car-index-sorted is not iterable: refusal expected
+			if l.Exit == 0 {
+				x.Fail("c19:detach-list-sorted:"+tag, "listing a digest-only index succeeded")
+			}
+			return
+		}
+		var want []string
+		for _, rec := range fin.Index {
+			mh, _ := multihash.Encode(rec.Digest, rec.MhCode)
+			want = append(want, fmt.Sprintf("%s %d", multihash.Multihash(mh).String(), rec.Offset))
+		}
+		got := strings.Split(strings.TrimSpace(string(l.Stdout)), "\n")
+		if len(want) == 0 {
+			got = nil
+			if strings.TrimSpace(string(l.Stdout)) != "" {
+				got = []string{string(l.Stdout)}
+			}
+		}
+		sort.Strings(want)
+		sort.Strings(got)
+		if l.Exit != 0 || strings.Join(got, "|") != strings.Join(want, "|") {
+			x.Fail("c19:detach-list:"+tag, "detach-index list prints %v (exit %d) want %v", clipL(got), l.Exit, clipL(want))
 		}
 	}
 }
 
-func init() {
-	kit.Register(&kit.Prop{
-		ID:  "C19",
-		Gen: genC19,
-		Run: func(c any, x *kit.Ctx) {
-			cs := c.(C19Case)
-			if cs.Cmd == "get-dag" {
-				runC19Dag(x, cs)
-				return
+func clipL(l []string) []string {
+	if len(l) > 8 {
+		return append(append([]string{}, l[:8]...), fmt.Sprintf("... (%d)", len(l)))
+	}
+	return l
+}
+
+// c19AppendTarget: the existing archive of a filter --append run.
+func c19AppendTarget(kind string) (file []byte, blocks []refcar.Block, roots [][]byte) {
+	mk := func(rootNames, names []string, v1 bool, dataPad, idxPad uint64, codec uint64) ([]byte, []refcar.Block, [][]byte) {
+		var bl []refcar.Block
+		for _, b := range kit.Bs(names) {
+			bl = append(bl, b.Ref())
+		}
+		rts := [][]byte{}
+		for _, b := range kit.Bs(rootNames) {
+			rts = append(rts, b.Raw)
+		}
+		p := refcar.EncodeV1(rts, false, bl)
+		if v1 {
+			return p, bl, rts
+		}
+		pl, _ := refcar.DecodePayload(p, false, true)
+		return refcar.EncodeV2(p, dataPad, idxPad, refcar.EncodeIndex(codec, refcar.RecordsOf(pl, false)), false), bl, rts
+	}
+	switch kind {
+	case "a": // overlaps the usual sources: de-duplication against what is already there
+		return mk([]string{"a"}, []string{"a"}, false, 0, 0, refcar.CodecMhIndexSorted)
+	case "ab": // two roots, digest-only index
+		return mk([]string{"a", "b"}, []string{"a", "b"}, false, 0, 0, refcar.CodecIndexSorted)
+	case "empty": // no roots
+		return mk(nil, []string{"b"}, false, 0, 0, refcar.CodecMhIndexSorted)
+	case "pad": // padded: the blockstore documents that resumption needs matching padding options
+		return mk([]string{"a", "b"}, []string{"a", "b"}, false, 3, 2, refcar.CodecIndexSorted)
+	case "v1": // documented refusal
+		return mk([]string{"c"}, []string{"c"}, true, 0, 0, 0)
+	}
+	return mk([]string{"c"}, []string{"c"}, false, 0, 0, refcar.CodecMhIndexSorted)
+}
+
+func (e *c19Env) filter(arg string) {
+	x, tag, cs, blks := e.x, e.tag, e.cs, e.blks
+	// selection: by argument
+	var sel [][]byte
+	switch arg {
+	case "all":
+		for _, b := range blks {
+			sel = append(sel, b.Raw)
+		}
+	case "none":
+	default:
+		for i, b := range blks {
+			if i%2 == 0 {
+				sel = append(sel, b.Raw)
 			}
-			runC19(c, x)
-		},
-		Setup:  func(string) error { return drv.BuildCar() },
-		Decode: kit.DecodeAs[C19Case],
-		Rule: "every input archive up to the bound laid out by the reference encoder (CARv1, CARv2, padded CARv2 with digest-only index, index-less CARv2; 1-2 roots or none; identity, duplicate and equal-multihash blocks) x every sub-command and flag set (index with each codec/none/--version 1, index create, detach-index (+list), filter plain/--inverse/--version 1/--append/all/none, get-block of every CID, list (file and stdin), root, concat of 1-3 inputs as v1 and v2, inspect, get-dag v1/v2 from every start node of a UnixFS DAG) run with the REAL car binary; " +
-			"every produced archive is re-checked with car inspect --full and car verify and compared with the reference answer; non-trivial = non-empty input",
-		Bound: func(tier string) map[string]any {
-			return map[string]any{"seq_len": 2, "commands": len(c19Cmds) + 1, "containers": 4}
-		},
-		Assumptions: []string{"filter writes through the blockstore, so its documented de-duplication and identity rules apply to the selected blocks", "an index emitted by car index may or may not contain identity entries (both accepted)", "concat uses the legacy reader, which refuses root-less inputs (documented refusal)"},
-	})
+		}
+		sel = append(sel, kit.Absent.Raw)
+	}
+	var lines []string
+	selected := map[string]bool{}
+	for _, s := range sel {
+		lines = append(lines, cidStr(s))
+		selected[string(s)] = true
+	}
+	list := []byte(strings.Join(lines, "\n") + "\n")
+	if c19Var(cs.Var, "list") == "messy" {
+		// the same set: CRLF and padded lines, blank lines, a repeated entry, no final newline
+		var sb strings.Builder
+		for i, l := range lines {
+			switch i % 3 {
+			case 0:
+				sb.WriteString("  " + l + " \r\n\n")
+			case 1:
+				sb.WriteString(l + "\r\n")
+			default:
+				sb.WriteString("\t" + l + "\n \n")
+			}
+		}
+		if len(lines) > 0 {
+			sb.WriteString(lines[0])
+		} else {
+			sb.WriteString("\r\n \n\t")
+		}
+		list = []byte(sb.String())
+	}
+	os.WriteFile(e.path("cids.txt"), list, 0o644)
+	var flags []string
+	inverse := arg == "inverse" || c19Var(cs.Var, "inverse") != ""
+	if inverse {
+		flags = append(flags, "--inverse")
+	}
+	v1 := arg == "v1" || c19Var(cs.Var, "ver1") != ""
+	if v1 {
+		flags = append(flags, "--version", "1")
+	}
+	var preBlocks []refcar.Block
+	var preRoots [][]byte
+	var preFile []byte
+	appendMode := arg == "append"
+	target := c19Var(cs.Var, "target")
+	if appendMode {
+		// an existing archive to append to
+		preFile, preBlocks, preRoots = c19AppendTarget(target)
+		os.WriteFile(e.path("out.car"), preFile, 0o644)
+		flags = append(flags, "--append")
+	} else {
+		e.stale("out.car")
+	}
+	args := append(append([]string{"filter", "--cid-file", "cids.txt"}, flags...), "in.car", "out.car")
+	r := e.run(nil, args...)
+	if r.Exit != 0 {
+		if appendMode && (target == "pad" || target == "v1" || v1) {
+			// a documented refusal: nothing is emitted, so the existing archive must be as it was
+			now, _ := os.ReadFile(e.path("out.car"))
+			if !bytes.Equal(now, preFile) {
+				x.Fail("c19:append-refused-modified:"+tag, "filter --append refused (%s) but changed the existing archive (%d -> %d bytes)", clipS(string(r.Stderr), 120), len(preFile), len(now))
+			}
+			x.Outcome("append-refused:" + target)
+			return
+		}
+		x.Fail("c19:cmd-failed:"+tag, "car filter failed: %s", clipS(string(r.Stderr), 300))
+		return
+	}
+	c19Validate(x, e.work, "out.car", tag)
+	out, _ := os.ReadFile(e.path("out.car"))
+	if cs.IO && !appendMode {
+		// the CID list on stdin (pipe) instead of --cid-file
+		a2 := append(append([]string{"filter"}, flags...), "in.car", "out2.car")
+		r2 := e.run(list, a2...)
+		out2, _ := os.ReadFile(e.path("out2.car"))
+		if r2.Exit != 0 || !bytes.Equal(out2, out) {
+			x.Fail("c19:stdin-form:"+tag, "car filter with the CID list on stdin (exit %d, %d bytes) differs from the --cid-file form (%d bytes): %s", r2.Exit, len(out2), len(out), clipS(string(r2.Stderr), 200))
+		}
+	}
+	fl, err := refcar.DecodeFile(out, false)
+	if err != nil {
+		return
+	}
+	// the library's answer: selected blocks in source order through the blockstore's documented rules
+	m := &model.Map{}
+	for _, b := range preBlocks {
+		m.Stored = append(m.Stored, kit.Blk{Raw: b.Cid, Data: b.Data})
+	}
+	for _, b := range blks {
+		if selected[string(b.Raw)] != inverse {
+			m.Put(b)
+		}
+	}
+	if d := sameBlocks(c19Blocks(fl), m.RefBlocks(), true); d != "" {
+		x.Fail("c19:filter-blocks:"+tag, "filter output blocks differ from the selected blocks in source order: %s", d)
+	}
+	var wantRoots [][]byte
+	if appendMode {
+		wantRoots = preRoots
+	} else {
+		for _, rt := range e.rootRaws {
+			if selected[string(rt)] != inverse {
+				wantRoots = append(wantRoots, rt)
+			}
+		}
+	}
+	if !sameRoots(fl.Payload.Header.Roots, wantRoots) && !(len(wantRoots) == 0 && len(fl.Payload.Header.Roots) == 0) {
+		x.Fail("c19:filter-roots:"+tag, "filter output roots %x want %x", fl.Payload.Header.Roots, wantRoots)
+	}
+	if appendMode && (v1 || target == "v1") {
+		return // an accepted append outside the documented domain: only validity and content are judged
+	}
+	if v1 != (fl.Version == 1) {
+		x.Fail("c19:filter-version:"+tag, "filter output version %d", fl.Version)
+	}
+}
+
+func (e *c19Env) getBlock() {
+	x, tag, blks := e.x, e.tag, e.blks
+	qs := append([]kit.Blk{}, blks...)
+	if len(blks) > 6 {
+		// reduced matrix for the many-block archives: first, second, middle, last
+		qs = []kit.Blk{blks[0], blks[1], blks[len(blks)/2], blks[len(blks)-1]}
+		x.Note("get-block on archives of more than 6 blocks queries first/second/middle/last only", true)
+	}
+	stale := bytes.Repeat([]byte("stale block file "), 20)
+	for _, q := range append(qs, kit.Absent, kit.B("b")) {
+		// a longer file already sits at the output path
+		os.WriteFile(e.path("blk.bin"), stale, 0o644)
+		r := e.run(nil, "get-block", "in.car", cidStr(q.Raw), "blk.bin")
+		present := false
+		for _, b := range blks {
+			if bytes.Equal(multihashBytes(b.Raw), multihashBytes(q.Raw)) {
+				present = true
+			}
+		}
+		ident := model.IsIdentity(q.Raw)
+		if present || ident {
+			got, _ := os.ReadFile(e.path("blk.bin"))
+			if r.Exit != 0 || !bytes.Equal(got, q.Data) {
+				x.Fail("c19:get-block:"+tag, "get-block %s: exit %d, %d bytes, want the block's %d bytes", q.Name, r.Exit, len(got), len(q.Data))
+			}
+			if e.cs.IO {
+				r2 := e.run(nil, "get-block", "in.car", cidStr(q.Raw))
+				if r2.Exit != 0 || !bytes.Equal(r2.Stdout, q.Data) {
+					x.Fail("c19:stdout-form:"+tag, "get-block %s to stdout: exit %d, %d bytes, want the block's %d bytes", q.Name, r2.Exit, len(r2.Stdout), len(q.Data))
+				}
+			}
+		} else if r.Exit == 0 {
+			x.Fail("c19:get-block-absent:"+tag, "get-block of an absent CID succeeded")
+		}
+		os.Remove(e.path("blk.bin"))
+	}
+}
+
+func (e *c19Env) list() {
+	x, tag := e.x, e.tag
+	r := e.run(nil, "list", "in.car")
+	var want []string
+	for _, b := range e.blks {
+		want = append(want, cidStr(b.Raw))
+	}
+	got := strings.Fields(string(r.Stdout))
+	if r.Exit != 0 || strings.Join(got, ",") != strings.Join(want, ",") {
+		x.Fail("c19:list:"+tag, "car list prints %v (exit %d) want scan order %v", clipL(got), r.Exit, clipL(want))
+	}
+	// and from stdin
+	r2 := e.run(e.in, "list")
+	if r2.Exit != 0 || string(r2.Stdout) != string(r.Stdout) {
+		x.Fail("c19:list-stdin:"+tag, "car list from stdin differs (exit %d): %s", r2.Exit, clipS(string(r2.Stderr), 200))
+	}
+	if e.cs.IO {
+		// stdin redirected from the file; output to a file argument over a stale file
+		r3 := drv.CarStdinFile(e.work, "in.car", "list")
+		x.Eval(1)
+		if r3.Exit != 0 || string(r3.Stdout) != string(r.Stdout) {
+			x.Fail("c19:list-stdin:"+tag, "car list with stdin redirected from the file differs (exit %d): %s", r3.Exit, clipS(string(r3.Stderr), 200))
+		}
+		os.WriteFile(e.path("out.txt"), bytes.Repeat([]byte("stale line\n"), 2000), 0o644)
+		r4 := e.run(nil, "list", "in.car", "out.txt")
+		f, _ := os.ReadFile(e.path("out.txt"))
+		if r4.Exit != 0 || string(f) != string(r.Stdout) {
+			x.Fail("c19:list-file:"+tag, "car list to a file (exit %d, %d bytes) differs from the stdout form (%d bytes)", r4.Exit, len(f), len(r.Stdout))
+		}
+	}
+}
+
+func (e *c19Env) root() {
+	x, tag := e.x, e.tag
+	r := e.run(nil, "root", "in.car")
+	var want []string
+	for _, rt := range e.rootRaws {
+		want = append(want, cidStr(rt))
+	}
+	got := strings.Fields(string(r.Stdout))
+	if r.Exit != 0 || strings.Join(got, ",") != strings.Join(want, ",") {
+		x.Fail("c19:root:"+tag, "car root prints %v (exit %d) want %v", got, r.Exit, want)
+	}
+	if e.cs.IO {
+		r2 := e.run(e.in, "root")
+		r3 := drv.CarStdinFile(e.work, "in.car", "root")
+		x.Eval(1)
+		for i, o := range []drv.RunResult{r2, r3} {
+			if o.Exit != 0 || string(o.Stdout) != string(r.Stdout) {
+				x.Fail("c19:stdin-form:"+tag, "car root from stdin (%s; exit %d) prints %q, from the file %q: %s", []string{"pipe", "file"}[i], o.Exit, clipS(string(o.Stdout), 200), clipS(string(r.Stdout), 200), clipS(string(o.Stderr), 200))
+			}
+		}
+	}
+}
+
+func (e *c19Env) inspect() {
+	x, tag := e.x, e.tag
+	r := e.run(nil, "inspect", "in.car")
+	if r.Exit != 0 {
+		x.Fail("c19:inspect-input:"+tag, "car inspect rejects a valid input: %s", clipS(string(r.Stderr), 200))
+		return
+	}
+	if !strings.Contains(string(r.Stdout), fmt.Sprintf("Block count: %d\n", len(e.blks))) {
+		x.Fail("c19:inspect-count:"+tag, "car inspect block count wrong: %s", clipS(string(r.Stdout), 300))
+	}
+	c19InspectReport(x, tag, string(r.Stdout), e.in)
+	if e.cs.IO {
+		// stdin must be seekable for inspect (it reads through ReadAt): redirected from the file
+		r2 := drv.CarStdinFile(e.work, "in.car", "inspect")
+		x.Eval(1)
+		if r2.Exit != 0 || string(r2.Stdout) != string(r.Stdout) {
+			x.Fail("c19:stdin-form:"+tag, "car inspect with stdin redirected from the file (exit %d) differs from the file form: %s", r2.Exit, clipS(string(r2.Stderr), 200))
+		}
+	}
+}
+
+func (e *c19Env) concat(arg string) {
+	x, tag := e.x, e.tag
+	parts := strings.Split(arg, ":")
+	ver, n := parts[0], int(parts[1][0]-'0')
+	// further inputs: the same content in another container, and a third fixed archive
+	second := refcar.EncodeV2(e.payload, 5, 0, nil, false)
+	os.WriteFile(e.path("in2.car"), second, 0o644)
+	third := refcar.EncodeV1([][]byte{kit.B("c").Raw}, false, []refcar.Block{kit.B("c").Ref(), kit.B("e").Ref()})
+	os.WriteFile(e.path("in3.car"), third, 0o644)
+	vflag := []string{"--version", strings.TrimPrefix(ver, "v")}
+	inputs := []string{"in.car", "in2.car", "in3.car"}[:n]
+	e.stale("out.car")
+	r := e.run(nil, append(append([]string{"concat", "-o", "out.car"}, vflag...), inputs...)...)
+	if len(e.rootRaws) == 0 && r.Exit != 0 {
+		x.Outcome("concat-rootless-input") // the legacy reader used by concat refuses root-less inputs (documented)
+		return
+	}
+	if r.Exit != 0 {
+		x.Fail("c19:cmd-failed:"+tag, "car concat failed: %s", clipS(string(r.Stderr), 300))
+		return
+	}
+	want := append([]refcar.Block{}, e.rb...)
+	if n >= 2 {
+		want = append(want, e.rb...)
+	}
+	if n >= 3 {
+		want = append(want, kit.B("c").Ref(), kit.B("e").Ref())
+	}
+	out, _ := os.ReadFile(e.path("out.car"))
+	if e.cs.IO {
+		r2 := e.run(nil, append(append([]string{"concat"}, vflag...), inputs...)...)
+		if r2.Exit != 0 || !bytes.Equal(r2.Stdout, out) {
+			x.Fail("c19:stdout-form:"+tag, "car concat to stdout (exit %d, %d bytes) differs from the -o output (%d bytes)", r2.Exit, len(r2.Stdout), len(out))
+		}
+	}
+	fl, err := refcar.DecodeFile(out, false)
+	if err != nil {
+		x.Fail("c19:concat-"+ver+":output-malformed", "concat --version %s output is not a well-formed archive: %v", strings.TrimPrefix(ver, "v"), err)
+		// keep the content oracle alive behind the recorded --version 2 framing defect: what follows the
+		// 40 header bytes must still be the concatenation under the first input's roots
+		if ver != "v2" || len(out) < refcar.V2HeaderSize {
+			return
+		}
+		p, perr := refcar.DecodePayload(out[refcar.V2HeaderSize:], false, true)
+		if perr != nil {
+			x.Fail("c19:concat-v2:payload-malformed", "concat --version 2: the bytes after the 40-byte header are not a well-formed payload: %v", perr)
+			return
+		}
+		fl = &refcar.File{Version: 1, Payload: p}
+	} else {
+		c19Validate(x, e.work, "out.car", tag)
+	}
+	if d := sameBlocks(c19Blocks(fl), want, true); d != "" {
+		x.Fail("c19:concat-blocks:"+tag, "concat output is not the concatenation of the inputs' blocks: %s", d)
+	}
+	if !sameRoots(fl.Payload.Header.Roots, e.rootRaws) {
+		x.Fail("c19:concat-roots:"+tag, "concat output roots differ from the first input's")
+	}
+}
+
+// flags: version / codec values outside the documented ones. A refusal emits nothing; if the
+// command goes through, what it wrote is an emitted archive and must be valid.
+func (e *c19Env) flags() {
+	x := e.x
+	os.WriteFile(e.path("cids.txt"), []byte(cidStr(kit.B("a").Raw)+"\n"), 0o644)
+	for _, f := range []struct {
+		name string
+		args []string
+	}{
+		{"index-version-3", []string{"index", "--version", "3", "in.car", "out.car"}},
+		{"index-version-0", []string{"index", "--version", "0", "in.car", "out.car"}},
+		{"index-v1-codec", []string{"index", "--version", "1", "--codec", "car-index-sorted", "in.car", "out.car"}},
+		{"index-unknown-codec", []string{"index", "--codec", "raw", "in.car", "out.car"}},
+		{"filter-version-3", []string{"filter", "--version", "3", "--cid-file", "cids.txt", "in.car", "out.car"}},
+		{"get-dag-version-3", []string{"get-dag", "--version", "3", "in.car", cidStr(kit.B("a").Raw), "out.car"}},
+		{"concat-version-3", []string{"concat", "--version", "3", "-o", "out.car", "in.car"}},
+	} {
+		os.Remove(e.path("out.car"))
+		r := e.run(nil, f.args...)
+		if r.Exit != 0 {
+			x.Outcome("flag-refused:" + f.name)
+			continue
+		}
+		x.Outcome("flag-accepted:" + f.name)
+		c19Validate(x, e.work, "out.car", "flags:"+f.name)
+	}
+}
+
+// controls: the two acceptors the property leans on must not be vacuous. Each input is an
+// archive as a sub-command emits it (car index output) with one defect.
+func (e *c19Env) controls() {
+	x := e.x
+	a, b, s := kit.B("a"), kit.B("b"), kit.B("s")
+	p := refcar.EncodeV1([][]byte{a.Raw}, false, []refcar.Block{a.Ref(), b.Ref()})
+	pl, _ := refcar.DecodePayload(p, false, true)
+	recs := refcar.RecordsOf(pl, false)
+	good := refcar.EncodeV2(p, 0, 0, refcar.EncodeIndex(refcar.CodecMhIndexSorted, recs), false)
+	os.WriteFile(e.path("c.car"), good, 0o644)
+	if r := e.run(nil, "inspect", "--full", "c.car"); r.Exit != 0 {
+		x.Fail("c19:control:baseline", "inspect --full rejects the intact control archive: %s", clipS(string(r.Stderr), 200))
+		return
+	}
+	if r := e.run(nil, "verify", "c.car"); r.Exit != 0 {
+		x.Fail("c19:control:baseline", "verify rejects the intact control archive: %s", clipS(string(r.Stderr), 200))
+		return
+	}
+	// 1. a flipped data byte
+	bad := append([]byte{}, good...)
+	bad[refcar.PragmaSize+refcar.V2HeaderSize+len(p)-1] ^= 0x01
+	os.WriteFile(e.path("c.car"), bad, 0o644)
+	if r := e.run(nil, "inspect", "--full", "c.car"); r.Exit == 0 {
+		x.Fail("c19:control:inspect-full-accepts-corrupt-block", "inspect --full accepts an archive whose last block does not hash to its CID")
+	}
+	// 2. the last section overstates what the payload holds
+	short := refcar.EncodeV2(p[:len(p)-1], 0, 0, nil, false)
+	os.WriteFile(e.path("c.car"), short, 0o644)
+	if r := e.run(nil, "inspect", "--full", "c.car"); r.Exit == 0 {
+		x.Fail("c19:control:inspect-full-accepts-truncated", "inspect --full accepts an archive whose last section is cut short")
+	}
+	// 3. a root that is not stored
+	p3 := refcar.EncodeV1([][]byte{a.Raw, s.Raw}, false, []refcar.Block{a.Ref(), b.Ref()})
+	pl3, _ := refcar.DecodePayload(p3, false, true)
+	os.WriteFile(e.path("c.car"), refcar.EncodeV2(p3, 0, 0, refcar.EncodeIndex(refcar.CodecMhIndexSorted, refcar.RecordsOf(pl3, false)), false), 0o644)
+	if r := e.run(nil, "verify", "c.car"); r.Exit == 0 {
+		x.Fail("c19:control:verify-accepts-missing-root", "verify accepts an archive with a root that is not among its blocks")
+	}
+	// 4. an index that lacks the record of a stored block
+	os.WriteFile(e.path("c.car"), refcar.EncodeV2(p, 0, 0, refcar.EncodeIndex(refcar.CodecMhIndexSorted, recs[:1]), false), 0o644)
+	if r := e.run(nil, "verify", "c.car"); r.Exit == 0 {
+		x.Fail("c19:control:verify-accepts-incomplete-index", "verify accepts an archive whose index has no record for a stored block")
+	}
+	// (no CARv1 control: inspect --full fails on every CARv1 for the recorded trailing-data-probe reason)
 }
